@@ -40,6 +40,9 @@ class RootPermutationDistribution(object):
             # Bridge shuffle outliers
             count += log_binomial_coefficient(num_data_points, num_outlier_data_points)
 
+            # Outliers are shuffled among themselves before being interleaved
+            count += log_factorial(num_outlier_data_points)
+
         else:
             count = 0
 
